@@ -378,7 +378,7 @@ def step (st : St) (line : String) : St × String :=
     | some a, some b =>
       match st.lists[a]?, st.lists[b]? with
       | some la, some lb =>
-        (st, match diffDepth la lb with | .ok d => toString d | .error _ => "panic")
+        (st, match diffDepth la lb with | .ok d => "depth=" ++ toString d | .error _ => "panic")
       | _, _ => (st, "bad-op")
     | _, _ => (st, "bad-op")
   | ["diff", a, b] =>
